@@ -275,7 +275,11 @@ def run_harness(h: Harness, res: Result, *, tier, timeout_ms, seed, known, prop,
         res.inconclusive.append("%s: path budget exhausted after %d paths" % (h.name, len(paths)))
     sat_seen = False
     n_xval = 0
+    v0, i0 = len(res.violations), len(res.inconclusive)
     for pi, p in enumerate(paths):
+        if not h.must_fail and (sum(v.get("count", 1) for v in res.violations[v0:]) >= 6 or len(res.inconclusive) - i0 >= 12):
+            res.notes = getattr(res, "notes", []) + ["%s: stopped after %d of %d paths (enough counterexamples)" % (h.name, pi, len(paths))]
+            break
         res.stats["paths"] += 1
         row["kinds"][p["kind"]] = row["kinds"].get(p["kind"], 0) + 1
         if p["kind"] == "infeasible":
@@ -623,3 +627,61 @@ def _unjson(x):
         except (ValueError, TypeError):
             return [_unjson(v) for v in x]
     return x
+
+
+def run_crosshair(res, prop, path, *, names, twins=(), timeout_s=120, known=None):
+    """Run CrossHair contract functions; fold verdicts into `res` (same verdict policy as the symx harnesses)."""
+    import hashlib as _h
+
+    from vf import crosshair_run
+
+    known = load_known() if known is None else known
+    t0 = time.time()
+    out = crosshair_run.run(path, timeout_s=timeout_s, only=list(names) + list(twins))
+    rows = []
+    for name, r in out.items():
+        is_twin = name in twins
+        res.stats["obligations"] += r["posts"]
+        res.stats["queries"] += r["posts"]
+        res.stats["solver_s"] += r["seconds"]
+        res.stats["backends"]["crosshair"] = res.stats["backends"].get("crosshair", 0) + r["posts"]
+        for i in range(r["posts"]):
+            res.stats["distinct"].add(_h.sha1(("%s:%s:%d" % (path, name, i)).encode()).hexdigest())
+        rows.append(dict(harness="crosshair:" + name, posts=r["posts"], confirmed=r["confirmed"], refuted=len(r["refuted"]),
+                         inconclusive=len(r["inconclusive"]), wall_s=r["seconds"], must_fail=is_twin, exhaustive=not r["inconclusive"]))
+        if is_twin:
+            res.stats["twins"] += 1
+            if r["refuted"]:
+                res.stats["twins_ok"] += 1
+                res.stats["sat"] += len(r["refuted"])
+            else:
+                res.inconclusive.append("crosshair:%s: twin was not refuted -- harness vacuous or insensitive" % name)
+            continue
+        res.stats["discharged"] += r["confirmed"]
+        if r["confirmed"] and len(res.samples) < 6:
+            res.samples.append(dict(harness="crosshair:" + name, verdict="Confirmed over all paths", conditions=r["posts"],
+                                    seconds=r["seconds"]))
+        for ln, text in r["inconclusive"]:
+            res.stats["unknown"] += 1
+            res.inconclusive.append("crosshair:%s line %d: %s" % (name, ln, text[:200]))
+        for ln, text in r["refuted"]:
+            res.stats["sat"] += 1
+            reproduced, observed = crosshair_run.replay_subprocess(path, name, text)
+            if not reproduced:
+                res.inconclusive.append("crosshair:%s: counterexample did not reproduce concretely (%s)" % (name, observed))
+                continue
+            sig = name + ":post"
+            if any(k.get("status") == "recorded" and k["property"] == prop and k["signature"] == sig for k in known):
+                for k in known:
+                    if k.get("status") == "recorded" and k["property"] == prop and k["signature"] == sig and k not in res.known:
+                        res.known.append(k)
+                continue
+            rd = os.path.join(ROOT, "replays")
+            os.makedirs(rd, exist_ok=True)
+            rp = os.path.join(rd, "%s_crosshair_%s.json" % (prop, name))
+            with open(rp, "w") as f:
+                json.dump(dict(property=prop, harness="crosshair:" + name, module=path, counterexample=text, observed=observed), f, indent=1)
+            res.violations.append(dict(harness="crosshair:" + name, obligation="post", signature=sig, observed=observed, path=rp, count=1))
+    res.harness_rows.extend(rows)
+    res.functions["crosshair:" + os.path.basename(path)] = hashlib.sha256(open(path).read().encode()).hexdigest()[:16]
+    return out
